@@ -53,6 +53,9 @@ def gen_frame(tier, seed):
     lo = lons(tier, seed)
     for la in lats(tier, seed):
         yield {'lat': la, 'lons': lo, 'kind': 'float'}
+    # the hash twins -1 / -2 one after the other in one process, on either axis, as floats and ints, in both orders
+    for a, b in ((-1.0, -2.0), (-2.0, -1.0), (-1, -2), (-2, -1)):
+        yield {'lat': a, 'lons': [133.0, b, a], 'kind': 'float', 'then': [[b, 133.0], [a, 133.0], [45.0, a], [45.0, b], [45.0, a], [b, b], [a, a]]}
     yield {'lat': -24, 'lons': [134, -1, 0], 'kind': 'float'}            # ints
     yield {'lat': np.int16(-24), 'lons': [np.int16(134), np.int8(-1), np.int32(0)], 'kind': 'float'}
     for kind in cfg.INTYPES[1:] + cfg.NUMFORMS:
@@ -61,6 +64,15 @@ def gen_frame(tier, seed):
 
 
 def ev_frame(case, rec):
+    if case.get('then'):
+        ev_frame1({k: v for k, v in case.items() if k != 'then'}, rec)
+        for la, lo in case['then']:
+            ev_frame1({'lat': la, 'lons': [lo], 'kind': case['kind']}, rec)
+        return
+    ev_frame1(case, rec)
+
+
+def ev_frame1(case, rec):
     la = case['lat']
     for lo in case['lons']:
         one = dict(case, lons=[lo])
@@ -165,6 +177,7 @@ def ev_vcv(case, rec):
                 continue
             rec.nontriv((la, lo, repr(m), name))
             rec.state((name, out.tobytes().hex()[:48]))
+            cfg.forms_agree(rec, lambda vf: f(vf, la, lo), m, out, 'statistics:vcv_' + name, one, {'lat': la, 'lon': lo}, name)
             scale = max(float(np.max(np.abs(M))), 1e-300)
             sym = float(np.max(np.abs(out - out.T))) / scale
             w0, w1 = np.linalg.eigvalsh(M), np.linalg.eigvalsh((out + out.T) / 2)
@@ -245,6 +258,8 @@ def ev_ell(case, rec):
             M = np.array(m, dtype=float)
         a, b, brg, w = ellipse_oracle(m)
         scale = max(abs(w[1]), 1e-300)
+        if st == 'ok':
+            cfg.forms_agree(rec, error_ellipse, m, r, 'statistics:error_ellipse', one, {}, 'error_ellipse')
         if st != 'ok':
             rec.fail('error_ellipse raised on a positive semi-definite matrix', site='statistics:error_ellipse:raise', observed=r,
                      case=one, coords={'eig': w.tolist()})
